@@ -152,6 +152,15 @@ func Core() []*Schema {
 			F("bykey", M("string", N("Style"))), F("tail", P("uint32"))),
 		Msg("SheetM", MF(1, "styles", A(N("Style"))), MF(2, "looks", A(N("Look"))), MF(3, "spans", M("uint16", N("Span"))))))
 
+	// 8a''. a union without members (the parser accepts it) as field, element and message
+	// field: no value of these types exists, their decoders do
+	out = append(out, mk("nomembers",
+		&Def{Kind: KUnion, Name: "Nothing"},
+		St("HoldsNothing", F("n", N("Nothing")), F("x", P("int32"))),
+		St("ManyNothing", F("ns", A(N("Nothing"))), F("z", P("byte"))),
+		Msg("MaybeNothing", MF(1, "n", N("Nothing")), MF(2, "x", P("int32"))),
+		St("Plain", F("a", P("int32")))))
+
 	// 8f. a large program: 40 records each with two map fields (thresholds on the number
 	// of definitions, file-wide counters in the generator)
 	{
